@@ -2,7 +2,8 @@
 From HTA.lib Require Import Base.
 From HTA.model Require Import Loader_Model.
 From HTA.proof Require Import C12_Proofs.
-From HTA.proof Require Import Scale C12_Scale.
+From HTA.gen Require Import TrimRules_gen.
+From HTA.proof Require Import Scale C12_Scale C12_RulesTie.
 Open Scope Z_scope.
 
 Theorem C12_host_iteration : forall l e s,
@@ -82,3 +83,12 @@ Theorem C12_resolution_independent : forall k incl l, 0 < k ->
   add_iter (scale_evs k l) = scale_evs k (add_iter l) /\ trim incl (scale_evs k l) = scale_evs k (trim incl l).
 Proof. intros k incl l Hk. split; [apply C12_iter_scale | apply C12_trim_scale]; exact Hk. Qed.
 Print Assumptions C12_resolution_independent.
+
+(* the trimming rule is regenerated from Trace._filter_irrelevant_gpu_kernels on every run (strict statement-by-statement reading of
+   the per-rank helper) and is the model's: below two steps nothing is dropped, host rows are cut at the latest step start (or end) *)
+Theorem C12_trim_rules_follow_source : forall incl l e,
+  keep_host incl l e = is_host e && host_cut_gen incl (ts e) (maxZ 0 (map ts (host_steps l))) (maxZ 0 (map eend (host_steps l))) /\
+  is_step_row e = is_host e && contains step_marker_gen (name e) /\
+  trim incl l = if Z.of_nat (List.length (host_steps l)) <? min_steps_gen then l else (kept_dev incl l ++ kept_host incl l)%list.
+Proof. exact trim_rules_are_generated. Qed.
+Print Assumptions C12_trim_rules_follow_source.
